@@ -5,7 +5,13 @@ mechanism and judge them with the property-level oracles below (`oracle_c07`, `o
 
 Checker mode: which ready branch `tokio::select!` takes is its RNG's choice, so every operation line is handed to the
 model together with the implementation's observation; the driver explores every order of the enabled transitions and
-accepts the observation iff some order yields it."""
+accepts the observation iff some order yields it.
+
+Since the c-round (seeded C07-c1, C07-c2, C09-c1): channels can be small and full (`cap=`, `mcap=`, `fill`, `pause`), real
+time can pass with a channel held full (`sleep <ms>`; the configurable timeouts are small: `sot=<ms>`, and the transport of a
+`via=accept` connection has connection_open_timeout = 1 s), connections can go through the REAL `TcpTransport::accept` future
+(`via=accept`, `accept`; model Model/Conn/Accept.lean), and held substreams can be half-closed and read from (`half_close`,
+`read_sub`, `remote_send`). Durations are never compared."""
 from .common import bump
 
 AREA = "tcploop"
@@ -609,7 +615,7 @@ def oracle_c09(case, out):
         # (c) nothing at all keeps the connection: every handle downgraded or dropped, every open answered, every
         # accepted inbound substream delivered or reset, no keep-alive protocol holds a substream (substreams held by
         # ping-like protocols do not count), nothing paused: this `run` must end the loop
-        if t[0] in RUNLIKE and prev is not None and prev["loop"] == "run" and d["loop"] == "run" and not any_uncertain \
+        if t[0] in RUNLIKE and d["ret"] == "ok" and prev is not None and prev["loop"] == "run" and d["loop"] == "run" and not any_uncertain \
                 and not other_cause and not any(active) and not blocked:
             live = [k for k in range(n_open) if k not in reset]
             all_answered = all(cmds[j] == failed[j] + (received[j] - oi[j]) for j in range(n))
@@ -619,7 +625,7 @@ def oracle_c09(case, out):
                 v("idle-not-closed", "every protocol has let go of the connection, no substream of a keep-alive protocol is "
                   "open or being opened and nothing is in flight, yet the connection task is still running after `run`", i)
                 return bad
-        if t[0] in RUNLIKE and prev is not None and prev["loop"] == "run" and prev.get("strong") == "n" \
+        if t[0] in RUNLIKE and d["ret"] == "ok" and prev is not None and prev["loop"] == "run" and prev.get("strong") == "n" \
                 and d["loop"] == "run" and not blocked:
             v("idle-not-closed", "no strong sender of the command channel was left before `run`, yet the connection task "
               "is still running", i)
